@@ -180,8 +180,21 @@ func (w *ClockWorld) Apply(op string) (string, []Violation) {
 		w.b2, w.a2 = b2, coll(b2, NameA)
 		// a new process only has to stay above what its on-disk buckets handed out before
 		w.issued = w.issued1
-		if hi := rosmar.VerifGlobalHLCHighest(); hi < w.issued1 {
-			return "ok", []Violation{{Prop: "C04", Op: op, Pre: "clock", Field: "restart-mark", Detail: fmt.Sprintf("after the restart the clock's high-water mark is %d, but the on-disk bucket had handed out %d before it was closed", hi, w.issued1)}}
+		// the first write of the new process (part of this operation, so that it is judged by what a client
+		// can see - a CAS - and not by when the implementation chooses to seed its clock)
+		cas, err := w.a1.Update("zprobe", 0, func([]byte) ([]byte, *uint32, bool, error) { return []byte(`{"p":1}`), nil, false, nil })
+		if err != nil {
+			return "err:" + ErrClass(err), nil
+		}
+		prev := w.issued1
+		if cas > w.issued {
+			w.issued = cas
+		}
+		if cas > w.issued1 {
+			w.issued1 = cas
+		}
+		if cas <= prev {
+			return "ok", []Violation{{Prop: "C04", Op: op, Pre: "clock", Field: "restart-mark", Detail: fmt.Sprintf("the first write after the restart was stamped %d, but the on-disk bucket had handed out %d before it was closed", cas, prev)}}
 		}
 		return "ok", nil
 	}
